@@ -54,7 +54,7 @@ STRENGTHENED = {
     "C04-H": "session 3: element-wise builtins over the characters of a string",
     "C05-G": "session 3: manifesters_see_only_the_value - all manifesters in one program, any order, vs each in a program of its own",
     "C05-H": "session 3: manifesters_see_only_the_value - inherited objects with hidden fields as array elements / fields under every manifester",
-    "C06-H": "first run inconclusive (wall limit on an overloaded machine); the committed check is run again in the table",
+    "C06-H": "first run inconclusive (wall limit on an overloaded machine), second run missed; session 3: number texts reached through YAML anchors and aliases (anchored values and anchored keys)",
     "C08-G": "session 3: both operands already evaluated by an earlier use (every operator and the __compare_array family)",
     "C11-G": "session 3: run-time names on objects whose assertion fails, next to sources that intern the same names",
     "C12-H": "session 3: --max-trace 0 / 1 among the extra flags, the value passing through std.trace inside calls (C16 catches it too: every --max-trace from 0)",
